@@ -179,7 +179,8 @@ Proof.
     destruct (iget k (sl_active s)) as [r|] eqn:GA; [|discriminate].
     set (s0 := with_active s (sl_active s) (sl_byUID s) (al_del ikey_eqb k (sl_expiry s))).
     assert (EQ : removeActiveLocked s0 k r = removeActiveLocked s k r).
-    { unfold removeActiveLocked, s0, unscheduleExpiryLocked. cbn [sl_active sl_byUID sl_expiry with_active sl_target sl_pending sl_ownerSeq sl_tomb sl_nextID].
+    { unfold removeActiveLocked, s0, unscheduleExpiryLocked, with_active.
+      cbn [sl_active sl_byUID sl_expiry sl_target sl_pending sl_ownerSeq sl_tomb sl_nextID].
       f_equal. apply i_del_notin. apply i_get_del_same. }
     rewrite EQ.
     inversion ND as [|? ? Hn ND']. subst.
